@@ -1,6 +1,4 @@
-(* C46  Check functions for the per-run correspondence case files, and the "required outcome"
-   functions (the model with the known defect classes mapped to the outcome the property demands;
-   C46/Proofs2.v proves that they satisfy the property at full strength). *)
+(* C46  Check functions for the per-run correspondence case files. *)
 From CV Require Export C46.Model.
 
 Definition lz_eqb (a b : list Z) : bool :=
@@ -8,46 +6,23 @@ Definition lz_eqb (a b : list Z) : bool :=
 Definition llz_eqb (a b : list (list Z)) : bool :=
   (Nat.eqb (length a) (length b)) && forallb (fun p => lz_eqb (fst p) (snd p)) (combine a b).
 
-(* the non-canonical two-byte form 0x81 x (x < 0x80) of a single byte *)
-Definition is_nc1 (it : list Z) : bool :=
-  match it with [a; x] => (a =? 129) && (x <? 128) | _ => false end.
-
-Definition required_string (inp : list Z) : res (list Z) :=
-  match rlp_decode_string inp with
-  | Err Crash => Err UserOther
-  | r => r
-  end.
-
-Definition required_list (inp : list Z) : res (list (list Z)) :=
-  match rlp_decode_list inp with
-  | Err Crash => Err UserOther
-  | Ok items => if existsb is_nc1 items then Err UserOther else Ok items
-  | r => r
-  end.
-
-(* RLP.decodeString / RLP.decodeList (wrappers): the observed outcome must be the code-shaped model's,
-   or the outcome the property requires where the two differ (i.e. a repaired defect is not a mismatch) *)
+(* RLP.decodeString / RLP.decodeList (wrappers): the observed outcome must be the code-shaped model's *)
 Definition check_string (c : list Z * res (list Z)) : bool :=
-  let '(inp, obs) := c in
-  res_eqb lz_eqb (rlp_decode_string inp) obs || res_eqb lz_eqb (required_string inp) obs.
+  let '(inp, obs) := c in res_eqb lz_eqb (rlp_decode_string inp) obs.
 
 Definition check_list (c : list Z * res (list (list Z))) : bool :=
-  let '(inp, obs) := c in
-  res_eqb llz_eqb (rlp_decode_list inp) obs || res_eqb llz_eqb (required_list inp) obs.
+  let '(inp, obs) := c in res_eqb llz_eqb (rlp_decode_list inp) obs.
 
 (* package rlp functions at an arbitrary non-negative start index *)
-Definition crash_or_user {A} (m : res A) (obs : res A) : bool :=
-  match m, obs with Err Crash, Err UserOther => true | _, _ => false end.
-
 Definition check_raw_string (c : list Z * Z * res (list Z * Z)) : bool :=
   let '(inp, start, obs) := c in
   let m := decode_string inp start in
-  res_eqb (fun a b => lz_eqb (fst a) (fst b) && (snd a =? snd b)) m obs || crash_or_user m obs.
+  res_eqb (fun a b => lz_eqb (fst a) (fst b) && (snd a =? snd b)) m obs.
 
 Definition check_raw_list (c : list Z * Z * res (list (list Z) * Z)) : bool :=
   let '(inp, start, obs) := c in
   let m := decode_list inp start in
-  res_eqb (fun a b => llz_eqb (fst a) (fst b) && (snd a =? snd b)) m obs || crash_or_user m obs.
+  res_eqb (fun a b => llz_eqb (fst a) (fst b) && (snd a =? snd b)) m obs.
 
 Definition check_read_size (c : list Z * Z * res (bool * Z * Z)) : bool :=
   let '(inp, start, obs) := c in
@@ -83,23 +58,23 @@ Fixpoint lookup (b : Z) (exc : list (Z * Z)) : Z :=
 Definition check_block_s (c : list Z * list (Z * Z)) : bool :=
   let '(pre, exc) := c in
   forallb (fun b => let inp := pre ++ [b] in let want := lookup b exc in
-                    (code_s (rlp_decode_string inp) =? want) || (code_s (required_string inp) =? want))
+                    code_s (rlp_decode_string inp) =? want)
           bytes256.
 
 Definition check_block_l (c : list Z * list (Z * Z)) : bool :=
   let '(pre, exc) := c in
   forallb (fun b => let inp := pre ++ [b] in let want := lookup b exc in
-                    (code_l (rlp_decode_list inp) =? want) || (code_l (required_list inp) =? want))
+                    code_l (rlp_decode_list inp) =? want)
           bytes256.
 
 (* which last bytes of a block disagree (used by the driver to name the exact input) *)
 Definition block_misses_s (c : list Z * list (Z * Z)) : list Z :=
   let '(pre, exc) := c in
   filter (fun b => negb (let inp := pre ++ [b] in let want := lookup b exc in
-                    (code_s (rlp_decode_string inp) =? want) || (code_s (required_string inp) =? want)))
+                    code_s (rlp_decode_string inp) =? want))
          bytes256.
 Definition block_misses_l (c : list Z * list (Z * Z)) : list Z :=
   let '(pre, exc) := c in
   filter (fun b => negb (let inp := pre ++ [b] in let want := lookup b exc in
-                    (code_l (rlp_decode_list inp) =? want) || (code_l (required_list inp) =? want)))
+                    code_l (rlp_decode_list inp) =? want))
          bytes256.
